@@ -1282,7 +1282,8 @@ def _tg_create_task(it, lv, ca, node):
     cancellation) refuses new tasks with RuntimeError; otherwise the task becomes a member."""
     used("T-TG")
     st = it.st
-    if st.fork(f"TaskGroup.create_task@{it.pos(node)}", [("accepted", True), ("refused-group-not-active", True)]) == 1:
+    if not st.ghost.get("$tg_probe") and \
+            st.fork(f"TaskGroup.create_task@{it.pos(node)}", [("accepted", True), ("refused-group-not-active", True)]) == 1:
         st.ghost["$tg_refused"] = st.ghost.get("$tg_refused", 0) + 1
         raise PyRaise(it.new_exc("RuntimeError"), "TaskGroup is not active")
     return _create_task(it, lv, ca, node)
@@ -1503,6 +1504,7 @@ def _copy_context(it, lv, ca, node):
 def _new_taskgroup(it, lv, ca, node):
     used("T-TG")
     g = it.st.alloc("TaskGroup")
+    it.st.ghost.setdefault("$taskgroups", []).append(g)
     it.st.put(g, "$tg_entered", it.mk_bool(False))
     it.st.put(g, "$tg_exited", it.mk_bool(False))
     return g
